@@ -73,27 +73,20 @@ Section WP.
                  | inr ECancelled => Q (inr ECancelled) d m
                  | inr e => Q (inl (inr e)) d m
                  end.
-  (* programs never raise ECancelled themselves (only a pending await_irq produces it) *)
-  Fixpoint no_cancel {A} (p : prog A) : Prop :=
-    match p with
-    | Ret _ => True
-    | Fail e => e <> ECancelled
-    | Do a k h => (forall r, no_cancel (k r)) /\ (forall e, e <> ECancelled -> no_cancel (h e))
-    end.
   Lemma wp_attempt A (p : prog A) : forall (Q : (A + rerr) + rerr -> drv -> mon -> Prop) d m,
-    no_cancel p -> wp p (attempt_post Q) d m -> wp (attempt p) Q d m.
+    wp p (attempt_post Q) d m -> wp (attempt p) Q d m.
   Proof.
-    induction p as [a|e|a k IHk h IHh]; intros Q d m NC H; cbn [wp attempt no_cancel] in *.
+    induction p as [a|e|a k IHk h IHh]; intros Q d m H; cbn [wp attempt] in *.
     - exact H.
-    - destruct e; cbn [wp]; try exact H. exfalso; apply NC; reflexivity.
-    - destruct NC as [NCk NCh]. destruct a as [segs|c|ns|tag v|tag]; cbn [wp].
-      + destruct H as [H1 H2]. split; [apply IHh; [apply NCh; discriminate|exact H1]|]. intros ts got Hm. apply IHk; [apply NCk|]. apply H2. exact Hm.
-      + destruct c; try (apply IHk; [apply NCk|exact H]);
-          try (destruct H as [H1 H2]; split; [apply IHh; [apply NCh; discriminate|exact H1]|apply IHk; [apply NCk|exact H2]]; fail).
-        destruct H as [H0 [H1 H2]]. split; [exact H0|]. split; [apply IHh; [apply NCh; discriminate|exact H1]|apply IHk; [apply NCk|exact H2]].
-      + apply IHk; [apply NCk|exact H].
-      + apply IHk; [apply NCk|exact H].
-      + apply IHk; [apply NCk|exact H].
+    - destruct e; cbn [wp]; exact H.
+    - destruct a as [segs|c|ns|tag v|tag]; cbn [wp].
+      + destruct H as [H1 H2]. split; [apply IHh; exact H1|]. intros ts got Hm. apply IHk. apply H2. exact Hm.
+      + destruct c; try (apply IHk; exact H);
+          try (destruct H as [H1 H2]; split; [apply IHh; exact H1|apply IHk; exact H2]; fail).
+        destruct H as [H0 [H1 H2]]. split; [exact H0|]. split; [apply IHh; exact H1|apply IHk; exact H2].
+      + apply IHk; exact H.
+      + apply IHk; exact H.
+      + apply IHk; exact H.
   Qed.
 
   (* ---- soundness for run *)
